@@ -25,7 +25,9 @@ from mindsdb_sql.parser.dialects.mindsdb.finetune_predictor import FinetunePredi
 from mindsdb_sql.parser.logger import ParserLogger
 from mindsdb_sql.parser.utils import ensure_select_keyword_order, JoinType, tokens_to_string
 
-all_tokens_list = MindsDBLexer.tokens.copy()
+# sorted: the lexer's token set has a per-process (hash-seed dependent) order, which would leak into the
+# order of grammar productions and from there into the order of suggestions in error messages
+all_tokens_list = sorted(MindsDBLexer.tokens)
 all_tokens_list.remove('RPAREN')
 all_tokens_list.remove('LPAREN')
 
